@@ -258,10 +258,24 @@ def rleRows : List AmmoRow → Option (AmmoRow × Nat) → List String
   | x :: xs, some (a, n) =>
     if x = a then rleRows xs (some (a, n + 1)) else (digestRow a ++ "x" ++ toString n) :: rleRows xs (some (x, 1))
 
+/-- guard of the DRIVER (not of the model): a description whose ammo list would have more than a million entries is not
+expanded (the generator never produces one) -/
+def ammoSmall (r : Option V) : Bool :=
+  match r with
+  | none => true
+  | some v =>
+    let scs := scenarioRows v
+    (spreadCounts scs).foldl (fun a p => a + p.2) 0 ≤ 100000 &&
+    scs.all fun s => s.requests.all fun sh =>
+      match parseShootName sh with
+      | some (_, cnt, _) => cnt ≤ 10000
+      | none => true
+
 def ammoToken (r : Option V) : String :=
-  match ammoOf r with
-  | none => "ERR"
-  | some rows => toString rows.length ++ ":" ++ ";".intercalate (rleRows rows none)
+  if !ammoSmall r then "?"
+  else match ammoOf r with
+    | none => "ERR"
+    | some rows => toString rows.length ++ ":" ++ ";".intercalate (rleRows rows none)
 
 /-! ### handler -/
 
@@ -305,6 +319,8 @@ def handle : Handler := fun input impl =>
         -- malformed stream: only the agreement of the two front-ends is judged (validation inside plugin constructors is
         -- outside the model)
         ("-", v)
-      else (predict d', v)
+      else
+        let p := predict d'
+        if p.endsWith "A=?" then ("-", if v == "ok" then "skip:ammo-list-too-large-to-expand" else v) else (p, v)
 
 end Pandora.Drv.C16
